@@ -292,7 +292,14 @@ var marshalFailMarker = []byte("\xffMARSHAL-FAILS")
 
 func (c *simCodec) Name() string { return c.name }
 
+// marshalFailEOFMarker: like marshalFailMarker, and the codec's complaint
+// wraps io.EOF (a codec that streams from a source which ran dry).
+var marshalFailEOFMarker = append(append([]byte(nil), marshalFailMarker...), []byte("/EOF")...)
+
 func (c *simCodec) Marshal(m any) ([]byte, error) {
+	if bv, ok := m.(*Msg); ok && bytes.HasPrefix(bv.GetValue(), marshalFailEOFMarker) {
+		return nil, fmt.Errorf("sim: message cannot be marshalled: source ran dry: %w", io.EOF)
+	}
 	if bv, ok := m.(*Msg); ok && bytes.HasPrefix(bv.GetValue(), marshalFailMarker) {
 		return nil, errors.New("sim: message cannot be marshalled")
 	}
